@@ -540,7 +540,7 @@ func liftTuple(v any, class int, textual bool) any {
 }
 
 func c03BuiltinTie() string {
-	b, err := os.ReadFile("/repo/builtin.jq")
+	b, err := os.ReadFile(RepoDir() + "/builtin.jq")
 	if err != nil {
 		return "cannot read builtin.jq: " + err.Error()
 	}
